@@ -211,9 +211,14 @@ fn names_part(ctx: &Ctx) {
         TreeParams { min_nodes: 1, max_nodes: 3, max_decorated: 1, root_from_subset: false, shard: (0, 1) },
     );
     // names that are separator-joined combinations of other names (a.b / c next to a / b.c)
-    for set in super::c04::separator_sets() {
-        let sp = TreeParams { min_nodes: 3, max_nodes: 4, max_decorated: 0, root_from_subset: false, shard: (0, 1) };
-        let sub4 = subsets(set.len(), 4);
+    // ... and names whose struct names fold onto each other next to names that equal a numbered form
+    // (a / A / a1: a disambiguating number can collide with a natural name), 3-subsets
+    let mut sets: Vec<(Vec<PoolName>, usize)> = super::c04::separator_sets().into_iter().map(|s| (s, 4)).collect();
+    sets.push((super::c04::suffix_pool(), 3));
+    sets.push((super::c04::numbering_pool(), 3));
+    for (set, k_set) in sets {
+        let sp = TreeParams { min_nodes: if k_set == 4 { 3 } else { 2 }, max_nodes: 4, max_decorated: 0, root_from_subset: false, shard: (0, 1) };
+        let sub4 = subsets(set.len(), k_set);
         let res = par_for(
             sub4.len() as u64,
             ctx.threads,
